@@ -3,3 +3,4 @@ pub mod syntax;
 pub mod bookgen;
 pub mod ledger;
 pub mod alias;
+pub mod pricegen;
